@@ -191,6 +191,21 @@ int main(void)
 			if (!ok) destroy(it); else free(old_const);
 			if (!(ok && ck)) free(key);      /* a constant key that was attached is released with the item */
 			destroy(obj);
+		} else if (strcmp(op, "S") == 0) {
+			parse_fails(next_tok(&sp));
+			char *txt = opt_str(next_tok(&sp));
+			if (!txt) { puts("ERROR bad S"); continue; }
+			h_next = 0; h_live = 0;
+			cJSON *c = cJSON_CreateString(txt);
+			if (!c) printf("NULL next=%lu live=%ld\n", h_next, h_live);
+			else {
+				unsigned long n = h_next; long l = h_live;
+				fputs("ok ", stdout);
+				dump(c);
+				cJSON_Delete(c);
+				printf(" next=%lu live=%ld del=%ld\n", n, l, l - h_live);
+			}
+			free(txt);
 		} else if (strcmp(op, "R") == 0) {
 			parse_fails(next_tok(&sp));
 			(void)next_tok(&sp);                      /* <checked>: for the model only */
